@@ -476,10 +476,13 @@ def assemble(unit_name, out_path=None):
                 "identity": bool(sp.get("identity")),
             })
     emit("\n} // verus!\nfn main() {}", lambda j: {"kind": "footer"})
-    out_path = out_path or os.path.join(ROOT, "build", unit_name + ".rs")
+    # one directory per check process: checks of different properties may run concurrently and stack the same units
+    out_path = out_path or os.path.join(ROOT, "build", f"run-{os.getpid()}", unit_name + ".rs")
     os.makedirs(os.path.dirname(out_path), exist_ok=True)
-    with open(out_path, "w") as f:
+    tmp_path = out_path + ".tmp"
+    with open(tmp_path, "w") as f:
         f.write("\n".join(out_lines) + "\n")
+    os.replace(tmp_path, out_path)
     return {"unit": unit_name, "path": out_path, "extracted": extracted, "lemmas": lemmas, "linemap": linemap, "errors": errors, "failed": failed}
 
 
